@@ -223,3 +223,11 @@ func VerifDecodeServiceAd(body []byte) (*ServiceAdvertisement, bool, error) {
 
 	return si.ServiceAdvertisement, si.Cancel, err
 }
+
+// VerifSetSequence overrides the node's update sequence counter (a node that has been running
+// for a while before it is attached).
+func (s *Netceptor) VerifSetSequence(n uint64) {
+	s.sequenceLock.Lock()
+	defer s.sequenceLock.Unlock()
+	s.sequence = n
+}
